@@ -1,5 +1,5 @@
 INIT Init
 NEXT Next
-CONSTANT Families = {"C17"}
+CONSTANT Families = {"F"}
 INVARIANT Emit
 CHECK_DEADLOCK FALSE
